@@ -409,7 +409,7 @@ class SpecProp(Prop):
 
 
 class C02(SpecProp):
-    name = 'C02'; module = 'C02'; claimed = True
+    name = 'C02'; module = 'C02'; claimed = False
     title = 'repetition and separators: bounds, greediness, leading/trailing'
     streams = ['c02']
     why = 'items / count / remainder differ from the greedy bounded reading'
